@@ -35,6 +35,10 @@ CLAIMS = {
  "C19": ("Every function of the library packages is checked on its SSA against the frame clause 'assigns no package state': no store, map update, append/copy/delete reaches a package-level variable outside init, and no package-level variable has its address stored, passed, captured or returned; every package-level variable is of an immutable kind (integer, reflect.Type). Hence two worlds share no mutable location.",
          "The frame clause is decided syntactically on go/ssa (one obligation per function and per package-level variable), not by SMT. The step from 'no shared mutable location' to 'no data race / no cross-talk for every interleaving' is an argument from the Go memory model; thread-safety of package reflect's internal caches is trusted.",
          "contract-based verification, frame clause 'assigns no package state' checked on go/ssa for every function"),
+ "C16": ("The registry invariant (type->id map and id->type list are inverse bijections over 0..n-1, IDs dense in registration order, Used = exactly the low n bits, IsRelation a subset of Used, unused type slots nil, n <= limit) is proved to be established by newComponentRegistry and preserved by registerComponent, ComponentID and unregisterLastComponent, in both builds; ComponentID returns the existing id without any change (regSame) for a known type and id = n with exactly one new pair for a new one, the relation bit equal to the reflection predicate; one registration beyond the limit panics before any write; World.componentID additionally restores the registry exactly when a new registration is attempted in a locked world; TypeID, ComponentIDs, ComponentInfo, ResourceTypeID, ResourceIDs, ResourceType and resourceID are proved against the same view (resource IDs use a separate registry object). "
+         "Layout-table sizing: every narrowing conversion and unsigned addition of createArchetype and componentID is an obligation (this is what exposed the uint8 overflow above 240 types, fixed).",
+         TRUST + " reflect.Type identity is payload-pointer identity; the reflection predicate isRelation is an uninterpreted function (contract assumed); the storage side of 'all IDs usable' (getLayout bounds for every table, ExtendLayouts re-basing) touches unsafe memory and is only covered by the assumed contracts of Init/CreateArchetype/extendArchetypeLayouts plus the witness test; ComponentID[T]/ResourceID[T] wrappers are covered through TypeID/ResourceTypeID.",
+         "contract-based deductive verification: WP/symbolic execution over go/ssa, obligations discharged by z3/cvc5"),
 }
 
 NA = {
